@@ -20,13 +20,14 @@ def do_import():
     for d in sorted(glob.glob("/tmp/wt/C*/_seed/m*")):
         pid = d.split("/")[3]; name = "%s-%s" % (pid, os.path.basename(d))
         dst = os.path.join(SEEDED, name)
-        if os.path.exists(os.path.join(dst, "patch.diff")) or not os.path.exists(os.path.join(d, "patch.diff")):
+        if not os.path.exists(os.path.join(d, "patch.diff")):
             continue
         os.makedirs(dst, exist_ok=True)
+        new = False
         for f in os.listdir(d):
-            if f in ("patch.diff", "notes.md") or f.startswith("demo."):
-                shutil.copy(os.path.join(d, f), dst)
-        print("imported", name)
+            if (f in ("patch.diff", "notes.md") or f.startswith("demo.")) and not os.path.exists(os.path.join(dst, f)):
+                shutil.copy(os.path.join(d, f), dst); new = True
+        if new: print("imported", name)
 
 def demo_cmd(name, checkout):
     d = os.path.join(SEEDED, name)
